@@ -23,6 +23,14 @@ UNITS = {
                  features=DEFAULT_FEATURES, threads=8),
 }
 
+def autogen_unit(layout, mem_kb=24_000_000):
+    return dict(fragments=PRE + [os.path.join(VF, 'prelude', 'coeff.rs')] + T('lemmas.rs', 'numth.rs', 'transcript.rs', 'pow.rs', 'commitment.rs', 'fri.rs', 'air.rs', 'air/autogen/%s.rs' % layout),
+                features={'std', 'keccak_160_lsb', 'keccak', 'stone5', 'assume_fs_nonzero', 'autogen_' + layout},
+                threads=1, stack=4 << 30, mem_kb=mem_kb, rlimit=200, only_modules=['swiftness_air_autogen::' + layout])
+
+
+UNITS['autogen_recursive'] = autogen_unit('recursive')
+
 # property -> units per tier, claim text for the manifest
 PROPS = {
     'C01': dict(quick=['core'], thorough=['core'],
@@ -79,6 +87,10 @@ PROPS = {
                 note='That "h^(2^k)=1 and h^(2^j)!=1 for all j<k" characterises order 2^k is textbook and stated, not mechanised.'),
 }
 
+PROPS['C16'] = dict(quick=['core', 'autogen_recursive'], thorough=['core', 'autogen_recursive'],
+    claim='For each layout covered, the UNCHANGED bodies of the autogenerated composition and DEEP evaluators type-check with the coefficient vector retyped to an abstract Coeff (usable only as one factor of a product with a field element) and the result retyped to a linear form, and the ghost contract proves every coefficient position 0..N-1 is used exactly once, in order, with no constant part; powers_array is proved to return alpha^i, and stark_commit to pass N_CONSTRAINTS resp. MASK_SIZE+DEGREE of them. Index obligations show the evaluators read exactly mask/oods positions within the checked lengths.',
+    technique='typing + ghost-state contract (lo, hi, count, czero) on eval_composition_polynomial_inner / eval_oods_polynomial_inner extracted with two signature-level rewrites; functional postcondition on powers_array',
+    note='Not decided: that each term is not identically zero (needs a witness evaluation per constraint). Divisions inside the evaluators are assumed non-zero (A-fs-nonzero). Layout coverage: see evidence units.')
 PROPS['C17'] = dict(quick=['core'], thorough=['core'],
     claim='Every loop and recursive function under contract has a machine-checked decreases clause (Verus rejects the unit otherwise) and labelled trip-count bounds tied to validated constants or the length of supplied data: queries <= 48 (config), FRI layers <= 14, coset <= 16, layer loop <= |queries|, Merkle walk consumes a node or two entries per step, Horner = |coefficients|, page product = |main page|, diluted = n_bits-1 <= 63.',
     technique='decreases clauses and loop invariants on every loop of the functions under contract (termination is an obligation of each unit)',
